@@ -310,7 +310,7 @@ fn load_table(args: &Args) -> Table {
         let per_ca = segs.len() >= 4 && segs[0].1 == "api" && segs[1].1 == "v1" && segs[2].1 == "cas" && segs[3].0 == "P";
         Route { method: r["method"].as_str().unwrap().to_string(), gated: !r["gates"].as_array().unwrap().is_empty(), per_ca,
                 kind: r["kind"].as_str().unwrap().to_string(), testbed: r["testbed"].as_bool().unwrap(), path: r["path"].as_str().unwrap().to_string(),
-                filter: r["filter"].as_str().map(|s| s.to_string()), segs }
+                filter: r["filter"]["perm"].as_str().map(|s| s.to_string()), segs }
     }).collect();
     Table { perms, sets, routes }
 }
@@ -547,6 +547,53 @@ async fn ensure_ca(c: &mut Client, ca: &str) {
     assert!(r.status == 200 || r.status == 400, "create CA {ca}: {} {}", r.status, String::from_utf8_lossy(&r.body));
 }
 
+async fn admin_send(c: &mut Client, method: &str, path: &str, body: Option<&[u8]>) -> (u16, Vec<u8>) {
+    let r = c.request(method, path, Some(&format!("Bearer {ADMIN_TOKEN}")), body).await;
+    (r.status, r.body.to_vec())
+}
+
+/// Give CA `ca` a standing parent issue (so that `GET /api/v1/bulk/cas/issues`, which drops CAs without issues, has
+/// something to show for it): register it as a child of the testbed CA, add that parent to `ca`, remove the child at
+/// the testbed CA again and let `ca` synchronise: "CA 'testbed' does not have a child named ..".
+/// All through the API with the admin token.
+async fn give_issue(c: &mut Client, ca: &str, k: u8) {
+    let step = |what: &str, st: u16, body: &[u8]| {
+        assert!(st == 200, "issue set-up for {ca}: {what}: {st} {}", String::from_utf8_lossy(body));
+    };
+    // the CA needs a repository before it talks to a parent
+    let (st, preq) = admin_send(c, "GET", &format!("/api/v1/cas/{ca}/id/publisher_request.json"), None).await;
+    step("publisher request", st, &preq);
+    let (st, b) = admin_send(c, "POST", "/api/v1/pubd/publishers", Some(&preq)).await;
+    step("add publisher", st, &b);
+    let rr: Value = serde_json::from_slice(&b).expect("repository response");
+    let (st, b) = admin_send(c, "POST", &format!("/api/v1/cas/{ca}/repo"), Some(json!({"repository_response": rr}).to_string().as_bytes())).await;
+    step("repo update", st, &b);
+    let (st, creq) = admin_send(c, "GET", &format!("/api/v1/cas/{ca}/id/child_request.json"), None).await;
+    step("child request", st, &creq);
+    let creq: Value = serde_json::from_slice(&creq).expect("child request json");
+    let add = json!({"handle": ca, "resources": {"asn": "", "ipv4": format!("10.{k}.0.0/16"), "ipv6": ""}, "id_cert": creq["id_cert"]});
+    let (st, presp) = admin_send(c, "POST", "/api/v1/cas/testbed/children", Some(add.to_string().as_bytes())).await;
+    step("add child at testbed", st, &presp);
+    let presp: Value = serde_json::from_slice(&presp).expect("parent response json");
+    let (st, b) = admin_send(c, "POST", &format!("/api/v1/cas/{ca}/parents"), Some(json!({"handle": "testbed", "response": presp}).to_string().as_bytes())).await;
+    step("add parent", st, &b);
+    let (st, b) = admin_send(c, "DELETE", &format!("/api/v1/cas/testbed/children/{ca}"), None).await;
+    step("remove child at testbed", st, &b);
+}
+
+/// Wait until the admin sees an issue for each of `cas` on the bulk endpoint.
+async fn wait_for_issues(c: &mut Client, cas: &[&str]) {
+    for round in 0..150 {
+        let shown = admin_listing(c, "/api/v1/bulk/cas/issues").await;
+        if cas.iter().all(|ca| shown.iter().any(|s| s == ca)) { return }
+        if round % 10 == 0 {
+            for ca in cas { let _ = admin_send(c, "POST", &format!("/api/v1/cas/{ca}/sync/parents"), None).await; }
+        }
+        tokio::time::sleep(std::time::Duration::from_millis(200)).await;
+    }
+    panic!("set-up failed: the CAs {cas:?} never got an issue");
+}
+
 fn main() {
     let args = Args::parse("c13");
     let code = run(&args);
@@ -596,6 +643,13 @@ fn run(args: &Args) -> i32 {
             let mut ux = Client::new(Endpoint::Unix(daemon.unix_path.clone()));
             ensure_ca(&mut adm, "ca1").await;
             ensure_ca(&mut adm, "ca2").await;
+            ensure_ca(&mut adm, "ca4").await;
+            // ca1, ca2 (the CAs the scoped roles name) and ca4 (in nobody's scope) each get a standing issue, so that
+            // the bulk issue listing differs between callers that may read different CAs
+            let ti = std::time::Instant::now();
+            for (k, ca) in ["ca1", "ca2", "ca4"].iter().enumerate() { give_issue(&mut adm, ca, k as u8 + 1).await; }
+            wait_for_issues(&mut adm, &["ca1", "ca2", "ca4"]).await;
+            timings.insert("issue_setup_s".to_string(), ti.elapsed().as_secs_f64());
             // callers
             let mut callers: Vec<Caller> = Vec::new();
             callers.push(Caller { name: "anonymous".into(), class: "no-credentials", transport: "tcp", cred_coq: "CNone".into(), header: None, desc: json!("no Authorization header") });
@@ -628,7 +682,12 @@ fn run(args: &Args) -> i32 {
             let cas: Vec<&str> = if args.thorough() { vec!["ca1", "ca2", "ca3", "testbed"] } else { vec!["ca1", "ca2"] };
             let mut last_fp: Option<(Option<String>, String)> = None;
             let tq = std::time::Instant::now();
-            for route in &table.routes {
+            // the listing endpoints first, while every CA of the set-up still has its issue (later probes delete and
+            // re-create ca1 / ca2)
+            let is_listing_route = |r: &Route| r.method == "GET" && (r.path == "/api/v1/cas" || r.path == "/api/v1/bulk/cas/issues" || r.filter.is_some());
+            let mut ordered: Vec<&Route> = table.routes.iter().filter(|r| is_listing_route(r)).collect();
+            ordered.extend(table.routes.iter().filter(|r| !is_listing_route(r)));
+            for route in ordered {
                 let mut ca_variants: Vec<&str> = if route.per_ca { cas.clone() } else { vec!["ca1"] };
                 // do not let the permitted callers delete the testbed CA (ca1 / ca2 are re-created after a served DELETE)
                 if route.method == "DELETE" && route.path == "/api/v1/cas/{handle}" { ca_variants.retain(|c| *c != "testbed"); }
@@ -641,7 +700,7 @@ fn run(args: &Args) -> i32 {
                     let fp_ca: Option<String> = if route.per_ca && (*ca == "ca1" || *ca == "ca2") { Some(ca.to_string()) } else { None };
                     // listing endpoints are named by the specification (Routes.v: `listing`), not taken from the
                     // generated table: a handler that stops filtering must not switch the observation off
-                    let is_listing = route.method == "GET" && (route.path == "/api/v1/cas" || route.path == "/api/v1/bulk/cas/issues");
+                    let is_listing = is_listing_route(route);
                     let mut k = 0u64;
                     for (client_is_unix, c) in callers.iter().map(|c| (false, c)).chain(ucallers.iter().map(|c| (true, c))) {
                         k += 1;
